@@ -38,12 +38,7 @@ class Ctx:
 
     def controls(self):
         if self._controls is None:
-            old = os.environ.get("PGFACTS_CRATES")
             d, hit = F.extract(os.path.join(F.VERIF, "controls"), "", crates=("pgcontrols",))
-            if old is None:
-                os.environ.pop("PGFACTS_CRATES", None)
-            else:
-                os.environ["PGFACTS_CRATES"] = old
             self._controls = F.Facts(d, crates=("pgcontrols",))
         return self._controls
 
